@@ -34,32 +34,32 @@ Lemma charge_row_ok : forall grams minrel res toler,
 Proof. intros grams minrel res toler H Hg. unfold charge_row_fails in H. destruct (Rle_dec (Rabs res) toler); [assumption|]. exfalso. apply H. split; lra. Qed.
 
 (* a converged DDL row: |sigma - GouyChapman(psi)| <= convergence_tolerance (ABSOLUTE, C/m2), at the reported psi and sigma *)
-Theorem ok_implies_charge_law_ddl : forall la mu eps tk f A g minrel toler, 0 <= mu -> 0 <= eps -> 0 < tk -> g > minrel ->
+Theorem ok_implies_charge_law_ddl : forall la mu eps tk f A g minrel toler, 0 <= mu -> 0 <= eps -> 0 < tk -> A * g <> 0 -> g > minrel ->
   let L := ln 10 in
   let psi := evalR (env_of [la; L; tk]) edl_psi in
   let sigma := evalR (env_of [f; A; g]) edl_sigma in
   ~ charge_row_fails g minrel (evalR (env_of [la; L; mu; eps; tk; f; A; g]) ddl_res) toler ->
   Rabs (sigma - gouy_chapman eps tk mu psi) <= toler.
 Proof.
-  intros la mu eps tk f A g minrel toler Hmu Heps Htk Hg L psi sigma H.
+  intros la mu eps tk f A g minrel toler Hmu Heps Htk Hag Hg L psi sigma H.
   apply charge_row_ok in H; [|exact Hg].
-  rewrite (ddl_res_form la L mu eps tk f A g Hmu Heps Htk) in H. fold sigma in H.
+  rewrite (ddl_res_form la L mu eps tk f A g Hmu Heps Htk Hag) in H. fold sigma in H.
   unfold gouy_chapman, psi. rewrite edl_psi_form.
   replace (F_C * (2 * R_J * tk * L * la / F_C) / (2 * R_J * tk)) with (la * L) by (unfold F_C, R_J; field; lra).
   rewrite Rabs_minus_sym. exact H.
 Qed.
 
-Theorem ok_implies_charge_law_ccm : forall la tk C f A g minrel toler, g > minrel ->
+Theorem ok_implies_charge_law_ccm : forall la tk C f A g minrel toler, A * g <> 0 -> g > minrel ->
   let L := ln 10 in
   let psi := evalR (env_of [la; L; tk]) edl_psi in
   let sigma := evalR (env_of [f; A; g]) edl_sigma in
   ~ charge_row_fails g minrel (evalR (env_of [la; L; tk; C; f; A; g]) ccm_res) toler ->
   Rabs (sigma - ccm_sigma C psi) <= toler.
 Proof.
-  intros la tk C f A g minrel toler Hg L psi sigma H.
+  intros la tk C f A g minrel toler Hag Hg L psi sigma H.
   apply charge_row_ok in H; [|exact Hg].
   assert (E : evalR (env_of [la; L; tk; C; f; A; g]) ccm_res = C * psi - sigma).
-  { unfold psi, sigma, ccm_res, edl_psi, edl_sigma. unfold_evalR. unfold Rdiv. ring. }
+  { unfold psi, sigma, ccm_res, edl_psi, edl_sigma. unfold_evalR. fld Hag. }
   rewrite E in H. unfold ccm_sigma. rewrite Rabs_minus_sym. exact H.
 Qed.
 
